@@ -6194,6 +6194,11 @@ func (t *Terminal) Loop() error {
 					// stays in effect (the coordinator may not have seen it yet) until search is enabled
 					t.overrideEnded = true
 				} else {
+					if t.inputOverride != nil {
+						// The list shows the results for the searched string: search for the query
+						// line again even if the actions of this key leave it as it was
+						changed = true
+					}
 					t.inputOverride = nil
 				}
 			}
